@@ -206,6 +206,19 @@ pub fn judge(case: &Case, acc: &mut Acc) {
                         viol!(acc, P, "message-predicates", case, "has_class / has_method / is_response of a message (or builder) disagree with its type field", "consistent with (class, method)", "inconsistent");
                     }
                     if c == 0 {
+                        // builder_request(method): a request of that method under a fresh transaction id
+                        let rq = Message::builder_request(m).build();
+                        let want = wire::join_type(0, m).to_be_bytes();
+                        if rq.len() != 20 || rq[0..2] != want || rq[2..4] != [0, 0] || rq[4..8] != [0x21, 0x12, 0xA4, 0x42] {
+                            viol!(acc, P, "builder_request-header", case, "builder_request(method) does not serialise a request header of that method", format!("{} 0000 2112a442 <id>", crate::refimpl::crypto::hex(&want)), fmt_bytes(&rq));
+                        }
+                        // the canned error responses go through the same fields
+                        for (resp, code) in [(Message::bad_request(&msg).build(), 400u16), (Message::unknown_attributes(&msg, &[0x7F00.into()]).build(), 420)] {
+                            let want = wire::join_type(3, m).to_be_bytes();
+                            if resp.len() < 20 || resp[0..2] != want || resp[8..20] != b[8..20] {
+                                viol!(acc, P, "error-response-type", case, format!("the canned {code} response does not carry the request's method and transaction id"), crate::refimpl::crypto::hex(&want), fmt_bytes(&resp));
+                            }
+                        }
                         for (resp, rc) in [(Message::builder_success(&msg).build(), 2u8), (Message::builder_error(&msg).build(), 3u8)] {
                             let want = wire::join_type(rc, m).to_be_bytes();
                             if resp.len() != 20 || resp[0..2] != want || resp[8..20] != b[8..20] {
